@@ -1,0 +1,25 @@
+//go:build verif
+// +build verif
+
+package types
+
+import "bytes"
+
+// VerifCachedProposer returns the address of the cached proposer (nil if none is cached).
+func (valSet *ValidatorSet) VerifCachedProposer() []byte {
+	if valSet.proposer == nil {
+		return nil
+	}
+	return valSet.proposer.Address
+}
+
+// VerifSetProposer sets the cached proposer to the member with the given address.
+func (valSet *ValidatorSet) VerifSetProposer(addr []byte) bool {
+	for _, v := range valSet.Validators {
+		if bytes.Equal(v.Address, addr) {
+			valSet.proposer = v
+			return true
+		}
+	}
+	return false
+}
